@@ -611,6 +611,10 @@ class Generator(object):
             name = '{}{}'.format(location, canonical(member.name))
 
             if self.is_buffer_type(member):
+                if self.is_fixed_size_buffer_type(member):
+                    raise self.error(
+                        'OCTET STRING of fixed size with a default value.')
+
                 default_value = '{{' + ', '.join(['0x%02X' % m for m in member.default]) + '}};'
                 default_variable = self.add_unique_variable('static const uint8_t {}[] = ' + default_value,
                                                             canonical(member.name) + '_default')
@@ -805,6 +809,9 @@ class Generator(object):
         raise NotImplementedError('To be implemented by subclasses.')
 
     def is_buffer_type(self, type_):
+        raise NotImplementedError('To be implemented by subclasses.')
+
+    def is_fixed_size_buffer_type(self, type_):
         raise NotImplementedError('To be implemented by subclasses.')
 
 
